@@ -819,15 +819,18 @@ func exec(t *testing.T, ci sim.CaseI, choices []uint32, keepLog bool) *sim.Outco
 				sim.Trouble("generated program does not compile: %v\n%s", v.Err(), src)
 			}
 			fc := &flow.Config{Root: cue.ParsePath("root"), IgnoreConcrete: c.IgnoreConcrete, InferTasks: c.InferTasks, FindHiddenTasks: c.FindHiddenTasks}
-			if c.UpdatePark > 0 {
-				fc.UpdateFunc = func(_ *flow.Controller, t *flow.Task) error {
-					if t != nil && s.Coin(c.UpdatePark) {
-						h.inUpdate = true
-						s.Park(sim.KYield, "UpdateFunc", t.Path().String()+" ")
-						h.inUpdate = false
-					}
+			fc.UpdateFunc = func(_ *flow.Controller, t *flow.Task) error {
+				if t == nil {
 					return nil
 				}
+				// the controller has folded the result of t into the configuration
+				h.record(event{kind: "update", path: t.Path().String()})
+				if c.UpdatePark > 0 && s.Coin(c.UpdatePark) {
+					h.inUpdate = true
+					s.Park(sim.KYield, "UpdateFunc", t.Path().String()+" ")
+					h.inUpdate = false
+				}
+				return nil
 			}
 			ctl := flow.New(fc, v, func(v cue.Value) (flow.Runner, error) {
 				if id, err := v.LookupPath(cue.ParsePath("$id")).String(); err == nil && id == "sim" {
@@ -925,20 +928,58 @@ func judge(c *Case, m *model, h *harness, runErr error, final []byte, finalErr e
 		}
 	}
 	if m.dynCyclic {
-		// The workflow is acyclic until the generator's result creates the generated tasks. From the
-		// moment that result is folded in, the cycle must be reported: Run fails and nothing further is
-		// started (in particular none of the tasks on the cycle, whose inputs can never be resolved).
+		// The workflow is acyclic until the generator's result creates the generated tasks. Once the
+		// controller has folded that result in (its update callback for the generator), the cycle
+		// exists: Run must report it — not return nil, not hang, not report something else when
+		// nothing else went wrong — and the tasks on the cycle and their dependants, whose inputs can
+		// never be resolved, must never start. What the controller does with tasks that are
+		// independent of the cycle is not the property's business. (The time the generator's runner
+		// returned is not the reference point: its result may still be queued behind others.)
 		genPath := c.path(m.cycleGen)
-		genEnd, genDone := end[genPath]
-		if !genDone {
-			return nil // the generator never completed (failure / cancellation elsewhere): no cycle yet
+		var folded uint64
+		for _, e := range h.events {
+			if e.kind == "update" && e.path == genPath {
+				folded = e.seq
+			}
+		}
+		if folded == 0 {
+			if runErr == nil {
+				return viol("cycle-not-reported", "Run returned nil although %s, whose result creates a dependency cycle, was never folded in", genPath)
+			}
+			return nil // failure / cancellation elsewhere came first: no cycle yet
 		}
 		if runErr == nil {
-			return viol("cycle-not-reported", "a dependency cycle appeared when %s completed, but Run returned nil", genPath)
+			return viol("cycle-not-reported", "a dependency cycle appeared when the result of %s was folded in, but Run returned nil", genPath)
+		}
+		if c.Fail == "" && c.CancelAfter == 0 && !strings.Contains(strings.ToLower(runErr.Error()), "cycl") {
+			return viol("cycle-not-reported", "a dependency cycle appeared when the result of %s was folded in, and nothing else went wrong, but the error of Run does not report a cycle: %v", genPath, runErr)
+		}
+		// blocked: the generated tasks (they refer to a task that transitively waits for them) and
+		// everything that must wait for one of them
+		blocked := map[string]bool{}
+		for _, in := range m.insts {
+			if in.spec == m.cycleVia {
+				blocked[in.path] = true
+			}
+		}
+		for changed := true; changed; {
+			changed = false
+			for _, in := range m.insts {
+				if blocked[in.path] {
+					continue
+				}
+				for d := range in.must {
+					if blocked[d] {
+						blocked[in.path] = true
+						changed = true
+						break
+					}
+				}
+			}
 		}
 		for _, e := range h.events {
-			if e.kind == "start" && e.seq > genEnd {
-				return viol("task-started-after-cycle-appeared", "task %s was started after the result of %s had created a dependency cycle", e.path, genPath)
+			if e.kind == "start" && blocked[e.path] {
+				return viol("cycle-task-started", "task %s was started although it is on, or waits for, a dependency cycle (created by the result of %s)", e.path, genPath)
 			}
 		}
 		out.Counters["dynamic-cycles-checked"]++
